@@ -231,6 +231,9 @@ func (in *interp) assume(t *Term, b bool) {
 		c = in.tt.Not(t)
 	}
 	p := in.path
+	if p.model != nil && p.model.Eval(c) == 0 {
+		p.model = nil // a witness fetched earlier no longer satisfies the path condition
+	}
 	p.pc = append(p.pc, c)
 	as := in.atomsOf(c)
 	p.pcAtoms = append(p.pcAtoms, as)
